@@ -535,6 +535,18 @@ func TestKDE(t *testing.T) {
 	})
 }
 
+// TestKnownWitness replays the recorded input of the known finding
+// kde-delta-touching-boundary on every run, so that its KNOWN-FINDING line reports at least
+// one hit while the defect is present (and none once it is repaired).
+func TestKnownWitness(t *testing.T) {
+	if ev.Replaying() {
+		return
+	}
+	x := 2.718281828459045
+	checkKDE.Run(t, &Case{Xs: []float64{x, x, x, x, x, -1.3591409142295225}, W: []float64{1, 1, 1, 1, 1, 1}, Kernel: kDelta, BW: 11.083584148395975,
+		Cfg: 3, Lo: -1.3591409142295225, Hi: math.Nextafter(x, math.Inf(1)), Probes: []float64{4.756993199803329, x}})
+}
+
 func TestBandwidth(t *testing.T) {
 	ev.Rule(rule)
 	ev.Rapid(t, "c12-bandwidth", 4000, 64000, func(rt *rapid.T) {
